@@ -111,12 +111,12 @@ type testClient struct {
 func (c *testClient) Run() error {
 	h := c.h
 	h.mu.Lock()
-	c.rec.RunEnter = h.s.Step
+	c.rec.RunEnter = h.s.StepSeq()
 	h.mu.Unlock()
 	if c.rec.selfExit {
 		time.Sleep(500 * time.Millisecond)
 		h.mu.Lock()
-		c.rec.RunExit = max(h.s.Step, 1)
+		c.rec.RunExit = max(h.s.StepSeq(), 1)
 		h.mu.Unlock()
 		return fmt.Errorf("client failed")
 	}
@@ -125,7 +125,7 @@ func (c *testClient) Run() error {
 		time.Sleep(c.rec.stopDelay)
 	}
 	h.mu.Lock()
-	c.rec.RunExit = h.s.Step
+	c.rec.RunExit = h.s.StepSeq()
 	if c.rec.RunExit == 0 {
 		c.rec.RunExit = 1
 	}
@@ -138,7 +138,7 @@ func (c *testClient) Stop(_ error) {
 	h.mu.Lock()
 	c.rec.Stops++
 	first := c.rec.Stops == 1
-	c.rec.StopSeq = h.s.Step
+	c.rec.StopSeq = h.s.StepSeq()
 	h.mu.Unlock()
 	if first {
 		close(c.rec.stop)
@@ -149,7 +149,7 @@ func (c *testClient) Points(id string, pts []data.Point) {
 	h := c.h
 	h.mu.Lock()
 	defer h.mu.Unlock()
-	c.rec.CBs = append(c.rec.CBs, cbRec{Seq: h.s.Step, Node: id, Pts: append(data.Points(nil), pts...)})
+	c.rec.CBs = append(c.rec.CBs, cbRec{Seq: h.s.StepSeq(), Node: id, Pts: append(data.Points(nil), pts...)})
 	if err := data.MergePoints(id, pts, &c.rec.Cur); err != nil && c.rec.FoldErr == "" {
 		// points of nodes that are not part of the typed config (other child types) cannot be folded: not an error here
 		if !strings.Contains(err.Error(), "no matching struct") {
@@ -162,7 +162,7 @@ func (c *testClient) EdgePoints(id, parent string, pts []data.Point) {
 	h := c.h
 	h.mu.Lock()
 	defer h.mu.Unlock()
-	c.rec.CBs = append(c.rec.CBs, cbRec{Seq: h.s.Step, Edge: true, Node: id, Parent: parent, Pts: append(data.Points(nil), pts...)})
+	c.rec.CBs = append(c.rec.CBs, cbRec{Seq: h.s.StepSeq(), Edge: true, Node: id, Parent: parent, Pts: append(data.Points(nil), pts...)})
 	if err := data.MergeEdgePoints(id, parent, pts, &c.rec.Cur); err != nil && c.rec.FoldErr == "" {
 		if !strings.Contains(err.Error(), "no matching struct") {
 			c.rec.FoldErr = err.Error()
@@ -173,7 +173,7 @@ func (c *testClient) EdgePoints(id, parent string, pts []data.Point) {
 func (h *mgrHarness) construct(nc *nats.Conn, cfg TestNode) client.Client {
 	h.mu.Lock()
 	defer h.mu.Unlock()
-	rec := &tcInst{N: len(h.ins) + 1, Key: cfg.Parent + "-" + cfg.ID, ID: cfg.ID, Parent: cfg.Parent, Cfg: cfg, ConsSeq: h.s.Step,
+	rec := &tcInst{N: len(h.ins) + 1, Key: cfg.Parent + "-" + cfg.ID, ID: cfg.ID, Parent: cfg.Parent, Cfg: cfg, ConsSeq: h.s.StepSeq(),
 		stop: make(chan struct{})}
 	rec.Cur = cfg
 	rec.Cur.Kids = append([]TestKid(nil), cfg.Kids...)
@@ -204,7 +204,7 @@ func (h *mgrHarness) construct(nc *nats.Conn, cfg TestNode) client.Client {
 	for _, o := range h.ins {
 		if o != rec && o.Key == rec.Key && o.RunExit == 0 {
 			h.s.failLocked("C07", "two-at-once", "client #%d for placement %s constructed at step %d while client #%d for the same placement is still running (constructed step %d, stop requested step %d)",
-				rec.N, rec.Key, h.s.Step, o.N, o.ConsSeq, o.StopSeq)
+				rec.N, rec.Key, h.s.StepSeq(), o.N, o.ConsSeq, o.StopSeq)
 		}
 	}
 	// safety: the placement was live when the store answered the scan's listing of its parent
